@@ -96,6 +96,10 @@ def spec_agree(ci, cd, sx):
             return True, "skipped-pos-dependent"
         if loose(ci[1]) == loose(cd[1]):
             return True, "permutation"
+        if "(FORMAT" in sx and [e for e in ci[1] if not e.startswith("R")] == [e for e in cd[1] if not e.startswith("R")] \
+                and len(ci[1]) == len(cd[1]):
+            # a value built in unspecified order was rendered into a string: the order is baked into text
+            return True, "skipped-order-in-string"
     return False, "results"
 
 
